@@ -220,3 +220,18 @@ func g1Candidates(E, H ref.G1, r *rand.Rand, nRandom int, full bool) []cand {
 	}
 	return cs
 }
+
+// jacobianForm returns a key object holding the same G2 point in non-affine (Jacobian, Z != 1)
+// coordinates, as RemoveBLSPublicKeys produces them: (pk + q) - q.
+func jacobianForm(pk crypto.PublicKey, r *rand.Rand) crypto.PublicKey {
+	q := skFromInt(randScalar(r)).PublicKey()
+	agg, err := crypto.AggregateBLSPublicKeys([]crypto.PublicKey{pk, q})
+	if err != nil {
+		return pk
+	}
+	rem, err := crypto.RemoveBLSPublicKeys(agg, []crypto.PublicKey{q})
+	if err != nil {
+		return pk
+	}
+	return rem
+}
